@@ -56,7 +56,7 @@ def _tx_of(case, tx_id):
 class Eval:
     """everything known about one (case, run)"""
     __slots__ = ('ci', 'ri', 'case', 'run', 'exc', 'got', 'must', 'missing', 'extra', 'unreal', 'may_novel',
-                 'xs', 'recs', 'fasta')
+                 'xs', 'recs', 'fasta', 'raw')
 
 def run_batch(ctx, cases, want_may=True, tag='cv'):
     res = I.run_cases('callvariant', cases, jobs=ctx.jobs, tag=tag, timeout=7200)
@@ -71,6 +71,7 @@ def run_batch(ctx, cases, want_may=True, tag='cv'):
             ev = Eval()
             ev.ci, ev.ri, ev.case, ev.run = ci, ri, c, run
             r = r_all['runs'][ri] if 'runs' in r_all else r_all
+            ev.raw = r
             ev.exc = r if '__exc__' in r else None
             ev.fasta = r.get('fasta', []) if not ev.exc else []
             ev.got = collections.OrderedDict()
@@ -202,3 +203,47 @@ def dist_of(cases):
             for r in recs:
                 d['map:' + r['kind']] += 1
     return dict(sorted(d.items()))
+
+def annotate_stability(ctx, violations, judge, max_known=2, reps=4, want_may=False, tag='stab'):
+    """callVariant is order dependent on some inputs (D14, several records on a stop codon): re-run the
+    case of every unexplained violation (and of the first few hits of each known finding) `reps` times in
+    one batch and record in the replay how often the same verdict shows again."""
+    import collections as _c
+    cnt = _c.Counter()
+    sel = []
+    for v in violations:
+        f = v.get('finding')
+        if v.get('replay_obj', {}).get('kind') != 'case':
+            continue
+        if f:
+            cnt[f] += 1
+            if cnt[f] > max_known:
+                continue
+        sel.append(v)
+    if not sel:
+        return
+    cases = []
+    for v in sel:
+        for _ in range(reps):
+            c = json.loads(json.dumps(v['replay_obj']['case']))
+            c['stream'] = 'core' if v['replay_obj'].get('what') in ('collapse', 'limits') else v['replay_obj'].get('what', 'replay')
+            if v['replay_obj'].get('what') == 'limits' and len(c['runs']) > 1:
+                c['runs'][1]['skip_oracle'] = True
+            cases.append(c)
+    evs = run_batch(ctx, cases, want_may=want_may, tag=tag)
+    by = _c.defaultdict(list)
+    for ev in evs:
+        by[ev.ci].append(ev)
+    for k, v in enumerate(sel):
+        hits = 0
+        for r in range(reps):
+            vs, st = [], _c.Counter()
+            es = by.get(k * reps + r, [])
+            for j, e in enumerate(es):
+                e.ci = 0
+            judge(es, vs, st)
+            if any(x.get('finding') == v.get('finding') for x in vs):
+                hits += 1
+        v['replay_obj']['reproduced'] = '%d/%d' % (hits, reps)
+        v['replay_obj']['repeat'] = max(reps, 4)
+        v['what'] += ' [reproduced %d/%d re-runs]' % (hits, reps)
